@@ -493,7 +493,8 @@ class AttributeStub(Stub):
         s = render_annotation(self.typ)
         # The stub imports the names this annotation needs (see
         # build_module_stubs), so, like in FunctionStub, drop the module prefixes.
-        for module in get_imports_for_annotation(self.typ):
+        # longest prefix first: stripping "pkg." before "pkg.sub." would leave "sub.C"
+        for module in sorted(get_imports_for_annotation(self.typ), key=len, reverse=True):
             s = re.sub(r"(?<![\w.])" + re.escape(module + "."), "", s)
         return f"{prefix}{self.name}: {s}"
 
@@ -524,7 +525,8 @@ class FunctionStub(Stub):
         s += render_signature(self.signature, 120 - len(s), prefix) + ": ..."
         # Yes, this is a horrible hack, but inspect.py gives us no way to
         # specify the function that should be used to format annotations.
-        for module in self.strip_modules:
+        # longest prefix first: stripping "pkg." before "pkg.sub." would leave "sub.C"
+        for module in sorted(self.strip_modules, key=len, reverse=True):
             # strip whole dotted prefixes only: "utils." must not eat the tail of
             # "pkg.utils." or of "myutils."
             s = re.sub(r"(?<![\w.])" + re.escape(module + "."), "", s)
